@@ -61,13 +61,15 @@ impl Prop for C04 {
         let mut formsets: Vec<Vec<&str>> = FORMS1.iter().map(|f| vec![*f]).collect();
         for a in FORMS2.iter() { for b in FORMS2.iter() { formsets.push(vec![*a, *b]); } }
         for forms in formsets.iter() {
+          // a 2-D mask needs an element count with a factorisation into two extents >= 2
+          if forms.len() == 1 && forms[0] == "mm" && !(2..r * c).any(|d| (r * c) % d == 0 && (r * c) / d >= 2) { continue; }
           for op in ops.iter() {
             for d in 0..draws {
               let fname = forms.join(",");
               let extents: Vec<usize> = if forms.len() == 1 { vec![r * c] } else { vec![*r, *c] };
               // sources: scalar always; vector for 1-D forms v/ri/m
               let mut srcs = vec!["scalar"];
-              if forms.len() == 1 && matches!(forms[0], "v" | "ri" | "m") { srcs.push("vector"); }
+              if forms.len() == 1 && matches!(forms[0], "v" | "ri" | "m" | "mm") { srcs.push("vector"); }
               if *op == "=" && d == 0 { srcs.push("wrongkind"); }
               for st in srcs.iter() {
                 let base = format!("kind={};shape={}x{};form={};op={};src={}", k, r, c, fname, op, st);
